@@ -12,7 +12,7 @@ use palette::hues::Cam16Hue;
 use palette::{Alpha, LabHue, LuvHue, OklabHue, RgbHue};
 use serde::de::DeserializeOwned;
 use serde::{Deserialize, Serialize};
-use simcore::types::*;
+use crate::types::*;
 use std::fmt::Debug;
 use std::io::{Read, Write};
 
@@ -115,6 +115,8 @@ pub struct CaseDesc {
     /// the color's own fields, in order, without alpha
     pub fields: &'static [&'static str],
     pub hue_slot: Option<usize>,
+    /// the field in this slot is `skip_serializing_if` zero (the serializer then calls `skip_field`)
+    pub skip_zero_slot: Option<usize>,
     /// number of values needed to build it (components incl. alpha)
     pub nvals: usize,
     pub ops: Ops,
@@ -316,12 +318,12 @@ macro_rules! color_body {
 
         pub static PLAIN: CaseDesc = CaseDesc {
             name: concat!($name, "<", $tn, ">"), color: $name, wrapper: Wrapper::None, scalar: $tn, alpha_scalar: None, shape: Shape::Struct,
-            ser_name: $sername, fields: FIELDS, hue_slot: $hue, nvals: N,
+            ser_name: $sername, fields: FIELDS, hue_slot: $hue, skip_zero_slot: None, nvals: N,
             ops: ops::<Col>(), opt: None, arr: Some(arr_ops!(Col)), inner: None,
         };
         pub static ALPHA: CaseDesc = CaseDesc {
             name: concat!("Alpha<", $name, "<", $tn, ">>"), color: $name, wrapper: Wrapper::Alpha, scalar: $tn, alpha_scalar: None, shape: Shape::Struct,
-            ser_name: $sername, fields: FIELDS, hue_slot: $hue, nvals: N + 1,
+            ser_name: $sername, fields: FIELDS, hue_slot: $hue, skip_zero_slot: None, nvals: N + 1,
             ops: ops::<Alpha<Col, T>>(),
             opt: Some(opt_ops_alpha!(Col, T)),
             arr: Some(arr_ops!(Alpha<Col, T>)),
@@ -336,7 +338,7 @@ macro_rules! color_body {
         }
         pub static PRE: Option<CaseDesc> = Some(CaseDesc {
             name: concat!("PreAlpha<", $name, "<", $tn, ">>"), color: $name, wrapper: Wrapper::PreAlpha, scalar: $tn, alpha_scalar: None, shape: Shape::Struct,
-            ser_name: $sername, fields: FIELDS, hue_slot: $hue, nvals: N + 1,
+            ser_name: $sername, fields: FIELDS, hue_slot: $hue, skip_zero_slot: None, nvals: N + 1,
             ops: ops::<PreAlpha<Col>>(),
             opt: Some(opt_ops_pre!(Col)),
             arr: None,
@@ -437,11 +439,11 @@ macro_rules! ser_hue {
             }
             pub static F32: CaseDesc = CaseDesc {
                 name: concat!($name, "<f32>"), color: $name, wrapper: Wrapper::None, scalar: "f32", alpha_scalar: None, shape: Shape::Hue,
-                ser_name: $name, fields: &[], hue_slot: Some(0), nvals: 1, ops: ops::<$h<f32>>(), opt: None, arr: None, inner: None,
+                ser_name: $name, fields: &[], hue_slot: Some(0), skip_zero_slot: None, nvals: 1, ops: ops::<$h<f32>>(), opt: None, arr: None, inner: None,
             };
             pub static F64: CaseDesc = CaseDesc {
                 name: concat!($name, "<f64>"), color: $name, wrapper: Wrapper::None, scalar: "f64", alpha_scalar: None, shape: Shape::Hue,
-                ser_name: $name, fields: &[], hue_slot: Some(0), nvals: 1, ops: ops::<$h<f64>>(), opt: None, arr: None, inner: None,
+                ser_name: $name, fields: &[], hue_slot: Some(0), skip_zero_slot: None, nvals: 1, ops: ops::<$h<f64>>(), opt: None, arr: None, inner: None,
             };
         }
     };
@@ -522,6 +524,46 @@ pub mod user {
         fn comps(&self) -> Vec<u64> { self.0.iter().map(|x| (*x as f64).to_bits()).collect() }
     }
 
+    /// The same, announcing no length (`serialize_seq(None)`): the `None` arm of the adapters' `len.map(|l| l + 1)`.
+    #[derive(PartialEq, Debug, Clone, Copy)]
+    pub struct SeqColorNoLen(pub [f32; 3]);
+    impl Serialize for SeqColorNoLen {
+        fn serialize<S: serde::Serializer>(&self, serializer: S) -> Result<S::Ok, S::Error> {
+            use serde::ser::SerializeSeq;
+            let mut seq = serializer.serialize_seq(None)?;
+            for x in &self.0 {
+                seq.serialize_element(x)?;
+            }
+            seq.end()
+        }
+    }
+    impl<'de> Deserialize<'de> for SeqColorNoLen {
+        fn deserialize<D: serde::Deserializer<'de>>(deserializer: D) -> Result<Self, D::Error> {
+            SeqColor::deserialize(deserializer).map(|c| SeqColorNoLen(c.0))
+        }
+    }
+    impl Case for SeqColorNoLen {
+        fn build(v: &[f64]) -> Self { SeqColorNoLen([v[0] as f32, v[1] as f32, v[2] as f32]) }
+        fn comps(&self) -> Vec<u64> { self.0.iter().map(|x| (*x as f64).to_bits()).collect() }
+    }
+
+    /// Named fields, one of them left out of the output when it is zero: the derived impl then calls
+    /// `SerializeStruct::skip_field`, which the alpha adapter has to forward.
+    #[derive(Serialize, Deserialize, PartialEq, Debug, Clone, Copy)]
+    pub struct SkipIfColor {
+        pub first: f32,
+        #[serde(skip_serializing_if = "is_zero", default)]
+        pub second: f32,
+        pub third: f32,
+    }
+    fn is_zero(x: &f32) -> bool {
+        *x == 0.0
+    }
+    impl Case for SkipIfColor {
+        fn build(v: &[f64]) -> Self { SkipIfColor { first: v[0] as f32, second: v[1] as f32, third: v[2] as f32 } }
+        fn comps(&self) -> Vec<u64> { vec![(self.first as f64).to_bits(), (self.second as f64).to_bits(), (self.third as f64).to_bits()] }
+    }
+
     impl Case for () {
         fn build(_v: &[f64]) -> Self {}
         fn comps(&self) -> Vec<u64> { vec![] }
@@ -568,16 +610,20 @@ pub mod user {
     alpha_of!(UnitTuple, 0);
     alpha_of!((f32, f32), 2);
     alpha_of!(SeqColor, 3);
+    alpha_of!(SeqColorNoLen, 3);
+    alpha_of!(SkipIfColor, 3);
 
     macro_rules! user_desc {
-        ($plain:ident, $alpha:ident, $t:ty, $name:literal, $sername:literal, $shape:expr, $fields:expr, $n:expr) => {
+        (@skip) => { None };
+        (@skip $s:expr) => { Some($s) };
+        ($plain:ident, $alpha:ident, $t:ty, $name:literal, $sername:literal, $shape:expr, $fields:expr, $n:expr $(, skip: $skip:expr)?) => {
             pub static $plain: CaseDesc = CaseDesc {
                 name: $name, color: $name, wrapper: Wrapper::None, scalar: "f32", alpha_scalar: None, shape: $shape, ser_name: $sername,
-                fields: $fields, hue_slot: None, nvals: $n, ops: ops::<$t>(), opt: None, arr: None, inner: None,
+                fields: $fields, hue_slot: None, skip_zero_slot: user_desc!(@skip $($skip)?), nvals: $n, ops: ops::<$t>(), opt: None, arr: None, inner: None,
             };
             pub static $alpha: CaseDesc = CaseDesc {
                 name: concat!("Alpha<", $name, ">"), color: $name, wrapper: Wrapper::Alpha, scalar: "f32", alpha_scalar: None, shape: $shape, ser_name: $sername,
-                fields: $fields, hue_slot: None, nvals: $n + 1, ops: ops::<Alpha<$t, f32>>(),
+                fields: $fields, hue_slot: None, skip_zero_slot: user_desc!(@skip $($skip)?), nvals: $n + 1, ops: ops::<Alpha<$t, f32>>(),
                 opt: Some(opt_ops_alpha!($t, f32)),
                 arr: None, inner: Some($name),
             };
@@ -591,12 +637,14 @@ pub mod user {
     user_desc!(UNITTUPLE, UNITTUPLE_A, UnitTuple, "UnitTuple", "UnitTuple", Shape::TupleStruct, &[], 0);
     user_desc!(PAIR, PAIR_A, (f32, f32), "(f32,f32)", "", Shape::Tuple, &[], 2);
     user_desc!(SEQ, SEQ_A, SeqColor, "SeqColor", "", Shape::Seq, &[], 3);
+    user_desc!(SEQNL, SEQNL_A, SeqColorNoLen, "SeqColorNoLen", "", Shape::Seq, &[], 3);
+    user_desc!(SKIPIF, SKIPIF_A, SkipIfColor, "SkipIfColor", "SkipIfColor", Shape::Struct, &["first", "second", "third"], 3, skip: 1);
 }
 
 // ---- alpha of another scalar type than the color's components
 pub mod mixed {
     use super::*;
-    use simcore::types::{HsvC, RgbC};
+    use crate::types::{HsvC, RgbC};
 
     macro_rules! mixed_case {
         ($id:ident, $name:literal, $col:ty, $ct:literal, $at:ty, $atn:literal, $sername:literal, $fields:expr, $hue:expr, $inner:literal) => {
@@ -606,7 +654,7 @@ pub mod mixed {
             }
             pub static $id: CaseDesc = CaseDesc {
                 name: $name, color: $sername, wrapper: Wrapper::Alpha, scalar: $ct, alpha_scalar: Some($atn), shape: Shape::Struct,
-                ser_name: $sername, fields: $fields, hue_slot: $hue, nvals: 4,
+                ser_name: $sername, fields: $fields, hue_slot: $hue, skip_zero_slot: None, nvals: 4,
                 ops: ops::<Alpha<$col, $at>>(),
                 opt: Some(opt_ops_alpha!($col, $at)),
                 arr: None,
@@ -702,7 +750,7 @@ pub fn all_cases() -> Vec<&'static CaseDesc> {
     for u in [
         &user::UNIT, &user::UNIT_A, &user::NEWTYPE, &user::NEWTYPE_A, &user::TUPLE, &user::TUPLE_A, &user::NAMED, &user::NAMED_A,
         &user::UNITTYPE, &user::UNITTYPE_A, &user::UNITTUPLE, &user::UNITTUPLE_A, &user::PAIR, &user::PAIR_A,
-        &user::SEQ, &user::SEQ_A,
+        &user::SEQ, &user::SEQ_A, &user::SEQNL, &user::SEQNL_A, &user::SKIPIF, &user::SKIPIF_A,
     ] {
         v.push(u);
     }
